@@ -483,13 +483,40 @@ class C03(ClientProp):
             ops = [[self._any_op(rng, api) for _ in range(rng.randrange(1, 5))] for api in apis]
             order = [rng.randrange(2) for _ in range(40)]
             out.append({"zone": rng.choice(ZONES_ALL), "t0": t0_pre2038(rng), "inst": inst, "ops": ops, "order": order})
+        out += slow_device_scenarios(ctx, rng, self._any_op)
         out += self.tlc_scripts(ctx, ctx.pick(300, 5000))
         return out
 
     assumptions = ClientProp.base_assumptions + [
+        "a slow device (it answers a frame seconds, minutes or an hour later, on the loop's virtual clock) is still the device of the "
+        "statement: the call waits and binds as usual; a caller that gives up first (wait_for) abandons a frame the device then never answers",
         "'current timestamp' = a reading taken between the start of the operation and the write (floor/ceiling of the virtual clock)",
         "two tasks sharing ONE API instance are outside the statement (instances are independent; one instance is sequential)",
     ]
+
+
+DELAYS = [0.05, 0.9, 1.1, 2.5, 4.9, 5.1, 9.9, 10.1, 29.9, 30.1, 59, 61, 119, 121, 299, 301, 3601]
+
+
+def slow_device_scenarios(ctx: Ctx, rng, any_op) -> list[dict]:
+    """Histories on one connection in which the device takes its time over one or more answers; sometimes the caller's
+    patience (a wait_for around the call) is shorter than that, and it carries on with the same API object afterwards."""
+    out = []
+    for n in range(ctx.pick(80, 1200)):
+        api = 1 + n % 2
+        ops = [any_op(rng, api) for _ in range(rng.randrange(2, 6))]
+        victim = ops[rng.randrange(len(ops))]
+        for r in victim["replies"]:
+            if rng.random() < 0.7 and r.get("t") != "eof":
+                r["delay"] = DELAYS[(n + len(out)) % len(DELAYS)] if rng.random() < 0.8 else rng.choice(DELAYS)
+        if n % 4 == 3:          # an impatient caller: it gives up before the slowest answer, then goes on (sometimes on a new connection)
+            slow = max((r.get("delay", 0) for r in victim["replies"]), default=0)
+            if slow > 0.2:
+                victim["patience"] = slow / 2
+                if n % 8 == 7:
+                    ops.insert(ops.index(victim) + 1, {"op": "reconnect"})
+        out.append(one(rng, api, ops, t0=t0_pre2038(rng)))
+    return out
 
 
 class C08(ClientProp):
@@ -526,6 +553,22 @@ class C08(ClientProp):
                 ops.append({"op": "get_shutter_state", "a": {}, "replies": [login(rng), shutter(rng)]})
         for ch in chunks(ops, 40):
             out.append(one(rng, 2, ch))
+        # a reply cut short although its header announced more (the rest never comes), a caller of little patience, a new
+        # connection with the same API object - and then a whole reply, which must be decoded like any other
+        for n in range(ctx.pick(24, 400)):
+            api = 1 + n % 2
+            q, full = (("get_state", state1(rng)) if api == 1 else
+                       (("get_breeze_state", thermo(rng)) if n % 4 == 1 else ("get_shutter_state", shutter(rng))))
+            full["hdr"] = True
+            cut = {"t": "prefix", "of": dict(full), "n": rng.choice([12, 40, 44, 60, 76, 80, 90, 100])}
+            first = {"op": q, "a": {}, "replies": [login(rng), cut], "patience": rng.choice([0.05, 0.3, 0.9, 2.0, 7.0])}
+            again = {"op": q, "a": {}, "replies": [login(rng), dict(full, seed=rng.randrange(1 << 30))]}
+            mid = [{"op": "reconnect"}] if n % 3 != 2 else []
+            out.append(one(rng, api, [first] + mid + [again, {"op": q, "a": {}, "replies": [login(rng), dict(full, seed=rng.randrange(1 << 30))]}]))
+        out += slow_device_scenarios(Ctx(ctx.tier, ctx.seed + 8), rng, lambda r, api: (
+            {"op": "get_state", "a": {}, "replies": [login(r), state1(r)]} if api == 1 else
+            ({"op": "get_breeze_state", "a": {}, "replies": [login(r), thermo(r)]} if r.random() < 0.5 else
+             {"op": "get_shutter_state", "a": {}, "replies": [login(r), shutter(r)]})))[: ctx.pick(30, 300)]
         return out
 
     def owns(self, clause):
@@ -627,6 +670,14 @@ class C09(ClientProp):
                     o = breeze_op(rng, a)
                     o["replies"][step] = bad
                     out.append(one(rng, 2, [o]))
+        # "nothing" also means nothing YET: a device that takes seconds, minutes, an hour over an answer (whole or faulty)
+        def q(r, api):
+            name, mk = ("get_state", state1) if api == 1 else r.choice([("get_breeze_state", thermo), ("get_shutter_state", shutter)])
+            rep = mk(r)
+            if r.random() < 0.3:
+                rep = r.choice(fault_variants(r, rep, 3))
+            return {"op": name, "a": {}, "replies": [login(r), rep]}
+        out += slow_device_scenarios(Ctx(ctx.tier, ctx.seed + 9), rng, q)[: ctx.pick(60, 800)]
         out += self.tlc_scripts(ctx, ctx.pick(200, 4000))
         return out
 
